@@ -66,7 +66,7 @@ def write(verif, prop, tier, seed, results, ann, violations, known_hits, tool_er
         })
         if r.get("classes") and len(samples) < 12:
             k = sorted(r["classes"].items(), key=lambda kv: -kv[1])[:3]
-            samples.append({"job": r["job"], "obligations_by_class": dict(k), "what": j.get("what", "")})
+            samples.append({"job": r["job"], "obligations_by_class": dict(k), "what": j.get("what", ""), "obligations": r.get("sample_obligations", [])})
     anyB = bool(bounded)
     only_bounded = not proof
     level = "proof"
